@@ -100,10 +100,15 @@ let print_fail kind = function
 
 let flush_line () = print_string (Buffer.contents b); print_newline (); Buffer.clear b
 
-let () =
-  load Sys.argv.(1);
-  (match next () with "dataset" -> () | t -> failwith ("expected dataset, got " ^ t));
-  let d = read_dataset () in
+
+(* ---- operations ------------------------------------------------------------------------------ *)
+type op =
+  | OpRoute of params * bool * fprow list * fprow list
+  | OpAccess of params * fprow list
+  | OpIndex of nat
+
+let read_ops () =
+  let ops = ref [] in
   let continue = ref true in
   while !continue do
     match peek () with
@@ -115,11 +120,25 @@ let () =
          let alt = int () in
          let acc = counted row in
          let egr = counted row in
+         ops := OpRoute (p, alt = 1, acc, egr) :: !ops
+       | "access" ->
+         let p = read_params () in
+         let rows = counted row in
+         ops := OpAccess (p, rows) :: !ops
+       | "index" -> let sc = nat () in ops := OpIndex sc :: !ops
+       | t -> failwith ("unexpected op " ^ t))
+  done;
+  List.rev !ops
+
+let run_model d ops =
+  List.iter (fun op ->
+      (match op with
+       | OpRoute (p, alt, acc, egr) ->
          (match find_scenario d p.q_scenario with
           | None -> ps "route noscenario"
           | Some s ->
             let cs = conn_set d s in
-            if alt = 1 then
+            if alt then
               (match alternatives d cs p acc egr with
                | Ok (rs, total) ->
                  ps "alt ok"; pz total; pi (List.length rs);
@@ -128,11 +147,8 @@ let () =
             else
               (match calc_single d cs p acc egr true with
                | Ok (r, used) -> print_route r; ps " | opt"; List.iter pn used
-               | o -> print_fail "route" o));
-         flush_line ()
-       | "access" ->
-         let p = read_params () in
-         let rows = counted row in
+               | o -> print_fail "route" o))
+       | OpAccess (p, rows) ->
          (match find_scenario d p.q_scenario with
           | None -> ps "access noscenario"
           | Some s ->
@@ -141,11 +157,8 @@ let () =
              | Ok (l, total) ->
                ps "access ok"; pi (List.length l); pz total;
                List.iter (fun a -> ps " |"; pn a.an_node; pz a.an_time; pz a.an_ttt; pz a.an_ntr) l
-             | o -> print_fail "access" o));
-         flush_line ()
-       | "index" ->
-         (* hour-index probe: scenario, then the two tables and both lookups for hours -2..40 *)
-         let sc = nat () in
+             | o -> print_fail "access" o))
+       | OpIndex sc ->
          (match find_scenario d sc with
           | None -> ps "index noscenario"
           | Some s ->
@@ -158,7 +171,182 @@ let () =
             ps " lr";
             for h = -2 to 40 do
               match rev_entry cs (z_of_int h) with None -> ps " oob" | Some i -> pn i
-            done);
-         flush_line ()
-       | t -> failwith ("unexpected op " ^ t))
-  done
+            done));
+      flush_line ()) ops
+
+(* ---- oracle mode: proved/declarative decision procedures run on the implementation's output ---- *)
+let split_on sep l =
+  let rec go cur acc = function
+    | [] -> List.rev (List.rev cur :: acc)
+    | x :: r -> if x = sep then go [] (List.rev cur :: acc) r else go (x :: cur) acc r in
+  go [] [] l
+
+let ios = int_of_string
+let zs s = z_of_int (ios s)
+let ns s = nat_of_int (ios s)
+
+let parse_route_tokens (toks : string list) : route option =
+  (* toks: "route" "ok" 19 ints, then groups separated by "|" *)
+  match split_on "|" toks with
+  | hd :: groups ->
+    (match hd with
+     | "route" :: "ok" :: f when List.length f = 19 ->
+       let f = Array.of_list (List.map zs f) in
+       let steps = List.filter_map (fun g ->
+           match g with
+           | [ "W"; k; t; d; dep; arr; rdy ] -> Some (SWalk (ns k, zs t, zs d, zs dep, zs arr, zs rdy))
+           | [ "B"; t; l; s; n; dep; w ] -> Some (SBoard (ns t, ns l, ns s, ns n, zs dep, zs w))
+           | [ "U"; t; l; s; n; arr; ivt; ivd ] -> Some (SUnboard (ns t, ns l, ns s, ns n, zs arr, zs ivt, zs ivd))
+           | _ -> None) groups in
+       Some { rt_dep = f.(0); rt_arr = f.(1); rt_ttt = f.(2); rt_tdist = f.(3); rt_tivt = f.(4); rt_tivd = f.(5);
+              rt_tnt = f.(6); rt_tntd = f.(7); rt_nboard = f.(8); rt_ntransf = f.(9); rt_trwalk = f.(10);
+              rt_trdist = f.(11); rt_acc = f.(12); rt_accd = f.(13); rt_egr = f.(14); rt_egrd = f.(15);
+              rt_trwait = f.(16); rt_fwait = f.(17); rt_twait = f.(18); rt_steps = steps }
+     | _ -> None)
+  | [] -> None
+
+let words s = List.filter (fun x -> x <> "") (String.split_on_char ' ' s)
+let v01 bo = if bo then "1" else "0"
+let opt_s = function None -> "none" | Some z -> string_of_int (int_of_z z)
+
+let run_oracle d ops implfile =
+  let ic = open_in implfile in
+  let wf = wf_data_b d in
+  let pos = pos_hops_b d in
+  let uni = uniform_wait_b d in
+  Printf.printf "dataset wf=%s pos=%s uni=%s\n" (v01 wf) (v01 pos) (v01 uni);
+  List.iter (fun op ->
+      let line = try input_line ic with End_of_file -> "missing" in
+      let toks = words line in
+      (match op with
+       | OpRoute (p, alt, acc, egr) ->
+         (match find_scenario d p.q_scenario with
+          | None -> print_string "v noscenario"
+          | Some s ->
+            let wft = wf_tables_b d p acc egr && wf_params_b p in
+            let dom = wf && wft in
+            let route_verdicts (r : route) =
+              Printf.sprintf "C01=%s C02=%s C06=%s" (v01 (valid_itinerary_b d s p acc egr r))
+                (v01 (limits_ok_b d s p r)) (v01 (totals_ok_b d p r)) in
+            let status_ok = (match toks with _ :: "ok" :: _ -> true | _ -> false) in
+            let status_noroute = (match toks with _ :: "noroute" :: _ -> true | _ -> false) in
+            let reason = (match toks with _ :: "noroute" :: r :: _ -> ios r | _ -> -1) in
+            (* optimality oracles *)
+            let opt_verdict (r0 : route option) =
+              if not (status_ok || status_noroute) then "C03=- C04=- C05=-" else
+              if p.q_fwd then begin
+                let c03dom = dom && pos && int_of_z p.q_maxfw <= 0 in
+                let ea = if c03dom then earliest_arrival_ref d s p acc egr else None in
+                let c03 = if not c03dom then "-" else
+                    (match r0, ea with
+                     | Some r, Some t -> v01 (int_of_z r.rt_arr = int_of_z t)
+                     | None, None -> "1"
+                     | _, _ -> "0") in
+                let c05dom = c03dom && uni in
+                let c05, ld = if not c05dom then "-", None else
+                    (match r0 with
+                     | Some r ->
+                       let ld = latest_departure_ref d s p r.rt_arr p.q_time p.q_time acc egr in
+                       (match ld with Some t -> v01 (int_of_z r.rt_dep = int_of_z t) | None -> "0"), ld
+                     | None -> "-", None) in
+                Printf.sprintf "C03=%s C04=- C05=%s ref_arr=%s ref_dep=%s" c03 c05 (opt_s ea) (opt_s ld)
+              end else begin
+                let c04dom = dom && pos && uni in
+                let ld = if c04dom then latest_departure_ref d s p p.q_time Z0 p.q_time acc egr else None in
+                let c04 = if not c04dom then "-" else
+                    (match r0, ld with
+                     | Some r, Some t -> v01 (int_of_z r.rt_dep = int_of_z t)
+                     | None, None -> "1"
+                     | _, _ -> "0") in
+                Printf.sprintf "C03=- C04=%s C05=- ref_dep=%s" c04 (opt_s ld)
+              end in
+            (* reason oracle *)
+            let c07 =
+              if not status_noroute || not dom then "-" else
+                let na = (acc = []) and ne = (egr = []) in
+                let expected =
+                  if na && ne then 5 else if na then 1 else if ne then 2
+                  else if p.q_fwd then (if service_from_origin_b d s p acc then 0 else 3)
+                  else (if service_to_destination_b d s p egr false then 0 else 4) in
+                (* forward queries run a reverse pass too: reason 4 can legitimately not occur there *)
+                v01 (reason = expected) ^ Printf.sprintf " exp_reason=%d" expected in
+            if alt then begin
+              match split_on "||" toks with
+              | hd :: rs ->
+                let routes = List.filter_map parse_route_tokens rs in
+                let ok = (match hd with "alt" :: "ok" :: _ -> true | _ -> false) in
+                if ok then begin
+                  let total = (match hd with _ :: _ :: t :: _ -> ios t | _ -> -1) in
+                  let n = List.length routes in
+                  let verdicts = List.map route_verdicts routes in
+                  let all_ok = List.for_all (fun v -> v = "C01=1 C02=1 C06=1") verdicts in
+                  let lines = List.map (fun r -> sort_nat (route_lines d r)) routes in
+                  let rec distinct = function [] -> true | x :: r -> not (List.exists (fun y -> list_eqb x y) r) && distinct r in
+                  let r0 = (match routes with r :: _ -> Some r | [] -> None) in
+                  let nobetter = (match r0 with
+                      | None -> true
+                      | Some r0 -> List.for_all (fun (r : route) ->
+                          if p.q_fwd then int_of_z r.rt_arr >= int_of_z r0.rt_arr
+                          else int_of_z r.rt_dep <= int_of_z r0.rt_dep) routes) in
+                  Printf.printf "v alt n=%d total=%d each=%s distinct=%s caps=%s nobetter=%s dom=%s pos=%s uni=%s capoff=%s %s"
+                    n total (v01 all_ok) (v01 (distinct lines)) (v01 (n <= 50 && total >= n && n >= 1)) (v01 nobetter)
+                    (v01 dom) (v01 pos) (v01 uni) (v01 (int_of_z p.q_maxfw <= 0))
+                    (String.concat " ; " verdicts)
+                end else
+                  Printf.printf "v alt fail C07=%s" c07
+              | [] -> print_string "v alt parse-error"
+            end else begin
+              let r0 = parse_route_tokens (match split_on "|" toks with _ -> toks) in
+              (match r0 with
+               | Some r ->
+                 Printf.printf "v route dom=%s %s %s C07=-" (v01 dom) (route_verdicts r) (opt_verdict r0)
+               | None ->
+                 if status_noroute then
+                   Printf.printf "v route dom=%s C01=- C02=- C06=- %s C07=%s" (v01 dom) (opt_verdict None) c07
+                 else Printf.printf "v route other %s" line)
+            end)
+       | OpAccess (p, rows) ->
+         (match find_scenario d p.q_scenario with
+          | None -> print_string "v noscenario"
+          | Some s ->
+            let wft = (if p.q_fwd then wf_tables_b d p rows [] else wf_tables_b d p [] rows) && wf_params_b p in
+            let dom = wf && wft && pos && (if p.q_fwd then int_of_z p.q_maxfw <= 0 else uni) in
+            (match toks with
+             | "access" :: "ok" :: cnt :: total :: rest ->
+               let groups = List.filter (fun g -> g <> []) (split_on "|" rest) in
+               let impl = List.map (fun g -> match g with
+                   | [ n; t; ttt; ntr ] -> (ios n, ios t, ios ttt, ios ntr)
+                   | _ -> (-1, 0, 0, 0)) groups in
+               let refmap = if p.q_fwd then reach_map_fwd_ref d s p rows else reach_map_rev_ref d s p rows in
+               let refl = List.map (fun (n, t) -> (int_of_nat n, int_of_z t)) refmap in
+               let qt = int_of_z p.q_time in
+               (* nodeTime: forward = arrivalTime; reverse = arrivalTime - totalTravelTime *)
+               let impl_nt = List.map (fun (n, t, ttt, _) -> (n, if p.q_fwd then t else t - ttt)) impl in
+               let same = (List.sort compare impl_nt = List.sort compare refl) in
+               let ttt_ok = List.for_all (fun (n, t, ttt, _) -> if p.q_fwd then ttt = t - qt else t = qt) impl in
+               let once = (List.length (List.sort_uniq compare (List.map (fun (n, _, _, _) -> n) impl)) = List.length impl) in
+               let tot_ok = (ios total = List.length d.d_nodes) && (ios cnt = List.length impl) in
+               Printf.printf "v access dom=%s map=%s ttt=%s once=%s total=%s n=%d C07=-" (v01 dom) (v01 same) (v01 ttt_ok) (v01 once) (v01 tot_ok) (List.length impl)
+             | "access" :: "noroute" :: r :: _ ->
+               let refmap = if p.q_fwd then reach_map_fwd_ref d s p rows else reach_map_rev_ref d s p rows in
+               let expected =
+                 if rows = [] then (if p.q_fwd then 1 else 2)
+                 else if p.q_fwd then (if service_from_origin_b d s p rows then -1 else 3)
+                 else (if service_to_destination_b d s p rows true then -1 else 4) in
+               Printf.printf "v access dom=%s map=%s noroute C07=%s exp_reason=%d" (v01 dom) (v01 (refmap = []))
+                 (if wf && wft then v01 (ios r = expected) else "-") expected
+             | _ -> Printf.printf "v access other %s" line))
+       | OpIndex _ -> print_string "v index");
+      print_newline ()) ops;
+  close_in ic
+
+let () =
+  let mode = Sys.argv.(1) in
+  load Sys.argv.(2);
+  (match next () with "dataset" -> () | t -> failwith ("expected dataset, got " ^ t));
+  let d = read_dataset () in
+  let ops = read_ops () in
+  match mode with
+  | "model" -> run_model d ops
+  | "oracle" -> run_oracle d ops Sys.argv.(3)
+  | _ -> failwith "mode"
